@@ -1,5 +1,5 @@
 From Coq Require Import ZArith List Bool.
 From Coq Require Import ExtrOcamlBasic.
-From Ring Require Import ChanModel ChanGhost.
+From Ring Require Import ChanModel ChanGhost ChanSync.
 Extraction Language OCaml.
-Extraction "ringmodel.ml" ginit gstep idx wf_opb.
+Extraction "ringmodel.ml" ginit gstep idx wf_opb sinit sstep all_done enabledb.
